@@ -64,6 +64,7 @@ fn main() {
         ("drive", "c02") => regex::drive_c02(&a),
         ("drive", "c03") => regex::drive_c03(&a),
         ("drive", "c05") => regex::drive_c05(&a),
+        ("drive", "c10") => regex::drive_c10(&a),
         ("drive", "c16") => regex::drive_c16(&a),
         ("drive", "c18") => regex::drive_c18(&a),
         ("drive", "c19") => regex::drive_c19(&a),
